@@ -246,7 +246,10 @@ def zseg_exact(streams, ev):
     return wrong > 0 and ev.get("kind") == "ok"
 
 
-MUTATIONS = ["past_end", "no_newline", "no_locators", "no_files", "bad_pos", "bad_size", "two_fields", "no_stream_name"]
+HUGE = [18446744073709551615, 18446744073709551614, 9223372036854775808, 9223372036854775807,
+        9223372036854775806, 18446744073709551616, 4294967296, 2147483648]      # = vC10Huge of the Go concretiser
+MUTATIONS = ["past_end", "no_newline", "no_locators", "no_files", "bad_pos", "bad_size", "two_fields", "no_stream_name",
+             "huge_pos", "huge_len", "huge_blocksize"]
 
 
 def common_overlay(ctx, pkg, pkgname):
@@ -286,6 +289,12 @@ def annotate(events, by_id):
                 cur["_bs"] = [p for p in paths_of(cur["streams"]) if bsoct(list(p))]
         elif ev["ev"] == "load":
             ev["kf_zstart"] = bool(cur["_zp"])
+            # numeric-extreme mutations: does position+size wrap around in uint64 (sdk/go/manifest) / int64 (arvados fs)?
+            if cur.get("mut") in ("huge_pos", "huge_len"):
+                n = HUGE[cur["mutarg"] % len(HUGE)]
+                a, b = (n, 2) if cur["mut"] == "huge_pos" else (1, n)
+                ev["kf_u64_overflow"] = a < 2 ** 64 and b < 2 ** 64 and a + b >= 2 ** 64
+                ev["kf_i64_overflow"] = a < 2 ** 63 and b < 2 ** 63 and a + b >= 2 ** 63
         elif ev["ev"] == "file":
             ev["kf_zstart"] = tuple(ev["path"]) in cur["_zp"]
             ev["kf_zspan"] = tuple(ev["path"]) in cur["_zs"]
